@@ -47,18 +47,23 @@ TraceSpec == TraceInit /\ [][TraceNext]_tvars
 
 Rec == Tr[i].st[k]
 Logged == i > 0 /\ pc = "run" /\ k > 0
+\* Every clause is evaluated on every state of every trace: a clause that fails prints one
+\* line  <<"REJECT", trace, step, clause>>  (so that one failing clause does not hide the
+\* others); a trace is accepted iff it reaches its end (ACCEPTED) without any REJECT line.
+Clause(name, holds) == holds \/ PrintT(<<"REJECT", i, k, name>>)
+
 \* the dynamics recovered the start instant exactly
-TrStartInversionExact == (i > 0 /\ pc = "run") => Tr[i].invMs = 0
+TrStartInversionExact == (i > 0 /\ pc = "run" /\ k = 0) => Clause("TrStartInversionExact", Tr[i].invMs = 0)
 \* the simulator's clock, the agent's epoch and the epoch the site was evaluated at are the
 \* specification's clock
-TrClockAgrees     == Logged => Rec.clockMs = 1000 * clockSec
-TrEpochAgrees     == Logged => (Rec.epochMs = 1000 * clockSec /\ Rec.jdOk = 1)
-TrSiteEpochAgrees == Logged => Rec.siteEpochMs = 1000 * siteEpoch
+TrClockAgrees     == Logged => Clause("TrClockAgrees", Rec.clockMs = 1000 * clockSec)
+TrEpochAgrees     == Logged => Clause("TrEpochAgrees", Rec.epochMs = 1000 * clockSec /\ Rec.jdOk = 1)
+TrSiteEpochAgrees == Logged => Clause("TrSiteEpochAgrees", Rec.siteEpochMs = 1000 * siteEpoch)
 \* SiteFixed: within one metre of the configured Earth-fixed position
-TrSiteFixed       == Logged => Rec.dispMm < 1000
-TrOwnFieldsFixed  == Logged => (Rec.ownDispMm < 1000 /\ Rec.llaErrMm < 1000)
-TrDbRowFixed      == Logged => (Rec.dbDispMm >= 0 /\ Rec.dbDispMm < 1000)
+TrSiteFixed       == Logged => Clause("TrSiteFixed", Rec.dispMm < 1000)
+TrOwnFieldsFixed  == Logged => Clause("TrOwnFieldsFixed", Rec.ownDispMm < 1000 /\ Rec.llaErrMm < 1000)
+TrDbRowFixed      == Logged => Clause("TrDbRowFixed", Rec.dbDispMm >= 0 /\ Rec.dbDispMm < 1000)
 \* VelIsRotation: Earth-fixed velocity below 1e-6 km/s; inertial speed = omega * axis distance
-TrVelIsRotation   == Logged => (Rec.velErr < 1000 /\ Rec.speedErr < 5000)
+TrVelIsRotation   == Logged => Clause("TrVelIsRotation", Rec.velErr < 1000 /\ Rec.speedErr < 5000)
 Accepted == (i > 0 /\ pc = "run" /\ k = Len(Tr[i].st)) => PrintT(<<"ACCEPTED", i>>)
 =============================================================================
